@@ -780,6 +780,7 @@ theorem prune_noop (ic : Tree → Tree → Bool) (io : Tree → Bool) (f : List 
   · simp [this hl]
   · simp [isLeaf, hl]
 
+namespace PruneP
 /-- sortedness by id -/
 def SortedById (l : List Tree) : Prop := l.Pairwise (fun a b => a.id ≤ b.id)
 
@@ -824,6 +825,8 @@ theorem sortById_of_sorted (l : List Tree) (h : SortedById l) : sortById l = l :
 
 theorem sortById_idem (l : List Tree) : sortById (sortById l) = sortById l :=
   sortById_of_sorted _ (sortById_sorted l)
+
+end PruneP
 
 theorem makeTrunkP_idem (io : Tree → Bool) (f : List Tree) :
     makeTrunkP io (makeTrunkP io f) = makeTrunkP io f := by
